@@ -11,6 +11,9 @@ CLAIMED = {
  "C09": ("lock-state path analysis over go/ssa with virtual inlining (re-acquisition, balance, order, blocking-under-lock on every call path)",
          "Decides, for every call path from every exported entry point and spawned goroutine, that no lock (handle, store, map) is re-acquired by a goroutine that holds it, every acquire is released in the matching mode, the lock order is acyclic and no channel/sleep operation happens under the handle lock. This is the property's own quantifier ('every call path'); loop termination and OS blocking are not decided.",
          "Trusts go/ssa and the lock-wrapper recognition; assumes user hooks return and do not call back into the handle.", "DESIGN.md 4 C09"),
+ "C08": ("lockset analysis over all call paths (go/ssa path enumeration with lock state; pairwise exclusion of every write context against every other context per shared field)",
+         "Decides the race-freedom clause: for every field of shared index, schema, settings, schema-table, cache and pending-store memory, every write context reachable from any handle API entry point or the flusher goroutine is mutually excluded (handle lock, a common package mutex, or the container's own lock) from every other context touching the field; file mutations only under the write lock. Linearizability of results is NOT decided (needs histories and a sequential oracle); race freedom is a necessary condition of it.",
+         "Trusts go/ssa, the fresh-object exemption (objects allocated/decoded in the current call tree are unpublished), and that a store/map lock held during an access is the accessed instance's lock.", "DESIGN.md 4 C08"),
 }
 
 NOT_BUILT = "check not built yet in this round (planned, see DESIGN.md section 4)"
